@@ -5,7 +5,9 @@
    REFUTED on the faithful model (known finding C04-IK): clause 3 - "an intermediate key whose system key has
    expired stops being used within one revoke-check interval" - fails when a decrypt-path load installed or
    refreshed the cache entry (C04_clause3_refuted, a computed history).  Clauses 1-2 and clause 3 outside that
-   signature are decided by the correspondence + monitor. *)
+   signature are decided by the correspondence + monitor.
+   REFUTED too (known finding C04-DUP): the duplicate fallback of createIntermediateKey adopts an unvalidated key
+   (C04_duplicate_fallback_refuted, a computed history with one faulted and one unfaulted Encrypt in the same second). *)
 From Asherah Require Import Envelope.Session Envelope.Frame Envelope.FrameInst Envelope.Rotation.
 
 Theorem C04_latest_key_checked : forall cid rci ex id loader w k w',
@@ -21,3 +23,15 @@ Theorem C04_clause3_refuted :
   is_key_expired (t0 + 120 * sec - p_rci pol100) (t0 / sec) (p_expire pol100) = true.
 Proof. exact C04_refuted_by_decrypt_refresh. Qed.
 Print Assumptions C04_clause3_refuted.
+
+(* known finding C04-DUP on the faithful model: an UNFAULTED Encrypt whose intermediate-key insert is refused as a duplicate adopts
+   the stored key of the same second without validating its parent, here a system key that expired two intervals earlier *)
+From Asherah Require Import Envelope.DupWitness.
+
+Theorem C04_duplicate_fallback_refuted :
+  nth_enc_parent 8 witness_dup = Some (t0 / sec + 120) /\
+  option_map (fun x => refused_ik_insert (snd x)) (nth_error (fst (hrun (hinit t0) witness_dup)) 8) = Some true /\
+  row_parent (w_store (h_world (snd (hrun (hinit t0) witness_dup)))) ik_p (t0 / sec + 120) = Some (t0 / sec) /\
+  is_key_expired (t0 + 120 * sec - p_rci pol_nc) (t0 / sec) (p_expire pol_nc) = true.
+Proof. exact C04_refuted_by_duplicate_fallback. Qed.
+Print Assumptions C04_duplicate_fallback_refuted.
